@@ -34,6 +34,9 @@ type exprEnv struct {
 
 func (f *frame) baseEnvNoParams(st *State) *exprEnv {
 	env := &exprEnv{f: f, st: st, old: f.entry, vars: map[string]cval{}}
+	if f.fn == nil {
+		return env
+	}
 	if f.fn.Pkg != nil {
 		env.pkg = f.fn.Pkg.Pkg
 	} else if f.fn.Parent() != nil && f.fn.Parent().Pkg != nil {
@@ -117,6 +120,25 @@ func (e *exprEnv) compileBool(src string) (string, error) {
 }
 
 func (e *exprEnv) B() *Builder { return e.f.t.B }
+
+// sideFact records the heap well-formedness fact of a value loaded in a contract expression
+// (references stored in the heap are allocated; integers are within their type's range).
+// Only ground terms are instantiated; facts are true in every execution, so they are asserted globally.
+func (e *exprEnv) sideFact(v cval) {
+	if v.typ == nil || strings.Contains(v.term, "?") {
+		return
+	}
+	f := e.f.t.typeFacts(e.st, v.term, v.typ)
+	if f == "true" {
+		return
+	}
+	key := "sidefact:" + f
+	B := e.B()
+	if !B.declared[key] {
+		B.declared[key] = true
+		B.assert(f)
+	}
+}
 
 var boolT = types.Typ[types.Bool]
 var intT = types.Typ[types.Int]
@@ -241,7 +263,7 @@ func (e *exprEnv) object(obj types.Object) (cval, error) {
 	case *types.Var:
 		// package-level variable
 		name := "G:" + pkgQualifier(o.Pkg().Path()) + "." + o.Name()
-		ref := B.declConst(name, "Int")
+		ref := e.f.t.globalAddr(name)
 		if _, isS := o.Type().Underlying().(*types.Struct); isS {
 			return cval{term: ref, typ: types.NewPointer(o.Type())}, nil
 		}
@@ -392,6 +414,7 @@ func (e *exprEnv) selectField(v cval, path []int) (cval, error) {
 				continue
 			}
 			cur = cval{term: e.f.t.load(e.st, &LVal{kind: lvField, arr: fieldArr(T, fld.Name()), obj: cur.term, typ: fld.Type()}), typ: fld.Type()}
+			e.sideFact(cur)
 			continue
 		}
 		B.sortOf(T)
@@ -475,14 +498,18 @@ func (e *exprEnv) index(n *ast.IndexExpr) (cval, error) {
 			return cval{term: fmt.Sprintf("(%s (s_base %s) (+ (s_off %s) %s))", fn, v.term, v.term, i.term), typ: types.NewPointer(el)}, nil
 		}
 		lv := &LVal{kind: lvElem, arr: elemArr(el), obj: fmt.Sprintf("(s_base %s)", v.term), idx: fmt.Sprintf("(+ (s_off %s) %s)", v.term, i.term), typ: el}
-		return cval{term: e.f.t.load(e.st, lv), typ: el}, nil
+		out := cval{term: e.f.t.load(e.st, lv), typ: el}
+		e.sideFact(out)
+		return out, nil
 	case *types.Map:
 		ks, vs := B.sortOf(u.Key()), B.sortOf(u.Elem())
 		ps, vsA := arrOf("(Array "+ks+" Bool)"), arrOf("(Array "+ks+" "+vs+")")
 		k := i.term
 		present := fmt.Sprintf("(and (not (= %s 0)) (select (select %s %s) %s))", v.term, e.f.t.get(e.st, mapPArr(u), ps), v.term, k)
 		val := fmt.Sprintf("(select (select %s %s) %s)", e.f.t.get(e.st, mapVArr(u), vsA), v.term, k)
-		return cval{term: ite(present, val, B.zero(u.Elem())), typ: u.Elem()}, nil
+		out := cval{term: ite(present, val, B.zero(u.Elem())), typ: u.Elem()}
+		e.sideFact(cval{term: val, typ: u.Elem()})
+		return out, nil
 	case *types.Basic:
 		return cval{term: fmt.Sprintf("(str_at %s %s)", v.term, i.term), typ: intT}, nil
 	}
@@ -522,6 +549,24 @@ func (e *exprEnv) resolveType(x ast.Expr) (types.Type, error) {
 		}
 	case *ast.ParenExpr:
 		return e.resolveType(n.X)
+	case *ast.MapType:
+		k, err := e.resolveType(n.Key)
+		if err != nil {
+			return nil, err
+		}
+		v, err := e.resolveType(n.Value)
+		if err != nil {
+			return nil, err
+		}
+		return types.NewMap(k, v), nil
+	case *ast.ArrayType:
+		if n.Len == nil {
+			el, err := e.resolveType(n.Elt)
+			if err != nil {
+				return nil, err
+			}
+			return types.NewSlice(el), nil
+		}
 	}
 	return nil, fmt.Errorf("cannot resolve type %s", types.ExprString(x))
 }
@@ -1003,6 +1048,7 @@ func (e *exprEnv) eventTermX(name string, args []ast.Expr) (string, error) {
 // modTarget describes one `modifies` entry.
 type modTarget struct {
 	arr   string
+	desc  arrDesc
 	sort  string
 	obj   string // "" = whole array
 	elem  bool   // element heap: obj is the base
@@ -1032,14 +1078,26 @@ func (e *exprEnv) resolveModifies(m string) ([]modTarget, error) {
 			if !ok {
 				return nil, fmt.Errorf("elems of non-slice")
 			}
-			return []modTarget{{arr: elemArr(sl.Elem()), sort: arrOf(arrOf(B.sortOf(sl.Elem()))), obj: fmt.Sprintf("(s_base %s)", v.term), elem: true}}, nil
+			return []modTarget{{arr: elemArr(sl.Elem()), desc: arrDesc{'E', sl.Elem()}, sort: arrOf(arrOf(B.sortOf(sl.Elem()))), obj: fmt.Sprintf("(s_base %s)", v.term), elem: true}}, nil
 		}
 		if id != nil && id.Name == "allelems" {
 			T, err := e.resolveType(n.Args[0])
 			if err != nil {
 				return nil, err
 			}
-			return []modTarget{{arr: elemArr(T), sort: arrOf(arrOf(B.sortOf(T)))}}, nil
+			return []modTarget{{arr: elemArr(T), desc: arrDesc{'E', T}, sort: arrOf(arrOf(B.sortOf(T)))}}, nil
+		}
+		if id != nil && id.Name == "allmaps" {
+			T, err := e.resolveType(n.Args[0])
+			if err != nil {
+				return nil, err
+			}
+			mt, ok := T.Underlying().(*types.Map)
+			if !ok {
+				return nil, fmt.Errorf("allmaps of non-map type")
+			}
+			ks, vs := B.sortOf(mt.Key()), B.sortOf(mt.Elem())
+			return []modTarget{{arr: mapPArr(mt), desc: arrDesc{'P', mt}, sort: arrOf("(Array " + ks + " Bool)")}, {arr: mapVArr(mt), desc: arrDesc{'V', mt}, sort: arrOf("(Array " + ks + " " + vs + ")")}}, nil
 		}
 		if id != nil && id.Name == "mapof" {
 			v, err := e.expr(n.Args[0])
@@ -1051,7 +1109,7 @@ func (e *exprEnv) resolveModifies(m string) ([]modTarget, error) {
 				return nil, fmt.Errorf("mapof of non-map")
 			}
 			ks, vs := B.sortOf(mt.Key()), B.sortOf(mt.Elem())
-			return []modTarget{{arr: mapPArr(mt), sort: arrOf("(Array " + ks + " Bool)"), obj: v.term}, {arr: mapVArr(mt), sort: arrOf("(Array " + ks + " " + vs + ")"), obj: v.term}}, nil
+			return []modTarget{{arr: mapPArr(mt), desc: arrDesc{'P', mt}, sort: arrOf("(Array " + ks + " Bool)"), obj: v.term}, {arr: mapVArr(mt), desc: arrDesc{'V', mt}, sort: arrOf("(Array " + ks + " " + vs + ")"), obj: v.term}}, nil
 		}
 	case *ast.StarExpr:
 		v, err := e.expr(n.X)
@@ -1062,7 +1120,7 @@ func (e *exprEnv) resolveModifies(m string) ([]modTarget, error) {
 		if !ok {
 			return nil, fmt.Errorf("*p of non-pointer")
 		}
-		return []modTarget{{arr: cellArr(p.Elem()), sort: arrOf(B.sortOf(p.Elem())), obj: v.term}}, nil
+		return []modTarget{{arr: cellArr(p.Elem()), desc: arrDesc{'M', p.Elem()}, sort: arrOf(B.sortOf(p.Elem())), obj: v.term}}, nil
 	case *ast.SelectorExpr:
 		// T.f ?
 		if id, ok := n.X.(*ast.Ident); ok {
@@ -1072,7 +1130,7 @@ func (e *exprEnv) resolveModifies(m string) ([]modTarget, error) {
 					if fv == nil || len(path) != 1 {
 						return nil, fmt.Errorf("no direct field %s in %s", n.Sel.Name, T)
 					}
-					return []modTarget{{arr: fieldArr(T, fv.Name()), sort: arrOf(B.sortOf(fv.Type()))}}, nil
+					return []modTarget{{arr: fieldArr(T, fv.Name()), desc: arrDesc{'F', fv.Type()}, sort: arrOf(B.sortOf(fv.Type()))}}, nil
 				}
 			}
 		}
@@ -1095,7 +1153,7 @@ func (e *exprEnv) resolveModifies(m string) ([]modTarget, error) {
 		if p, ok := T.Underlying().(*types.Pointer); ok {
 			T = p.Elem()
 		}
-		return []modTarget{{arr: fieldArr(T, fv.Name()), sort: arrOf(B.sortOf(fv.Type())), obj: obj.term}}, nil
+		return []modTarget{{arr: fieldArr(T, fv.Name()), desc: arrDesc{'F', fv.Type()}, sort: arrOf(B.sortOf(fv.Type())), obj: obj.term}}, nil
 	}
 	return nil, fmt.Errorf("unsupported modifies entry %q", m)
 }
@@ -1121,7 +1179,7 @@ func (e *exprEnv) applyModifies(m string, st *State) error {
 }
 
 // modifiesArrays is the static (effect-scan) view of a modifies entry: which arrays.
-func (t *Trans) modifiesArrays(fc *FuncContract, plan callPlan, m string) (map[string]string, error) {
+func (t *Trans) modifiesArrays(fc *FuncContract, plan callPlan, m string) (map[string]arrDesc, error) {
 	// evaluate in a throw-away environment with fresh parameter symbols
 	f := t.newFrame(t.topFn(), false, 0)
 	f.entry = t.entry
@@ -1164,9 +1222,9 @@ func (t *Trans) modifiesArrays(fc *FuncContract, plan callPlan, m string) (map[s
 	if err != nil {
 		return nil, err
 	}
-	out := map[string]string{}
+	out := map[string]arrDesc{}
 	for _, g := range tg {
-		out[g.arr] = g.sort
+		out[g.arr] = g.desc
 	}
 	return out, nil
 }
